@@ -675,6 +675,212 @@ theorem read_later {file : List (Str × Entry)} (hf : ∀ p ∈ file, EntryWF p.
       | none => rw [hfo] at hocc; cases hocc
       | some _ => rw [hfo] at this; cases this
 
+/-! ## Part 3: which ENTRY is stored (contents, not only keys) -/
+
+/-- what an entry holds apart from the key it is stored under -/
+def Entry.content (e : Entry) : Str × CIDict Str × CIDict (List Str) := (e.type, e.fields, e.persons)
+
+/-- Lemma G for whole entries: a key that is wanted ends up with the first entry of the file
+that has that key (or keeps the entry it already had). -/
+theorem read_wanted_content (file : List (Str × Entry)) (hf : ∀ p ∈ file, EntryWF p.2) :
+    ∀ {d d' : BibData} {rep : List Report}, RInv d → d.readEntries file = some (d', rep) →
+      ∀ k, d.wantEntry k = true →
+        (d'.entries.getItem k).map Entry.content =
+          match d.entries.getItem k with
+          | some e => some e.content
+          | none => (firstOcc file k).map (·.2.content) := by
+  induction file with
+  | nil =>
+    intro d d' rep _ h k _
+    simp only [BibData.readEntries] at h
+    cases h
+    cases d.entries.getItem k <;> rfl
+  | cons p file ih =>
+    intro d d' rep hd h k hk
+    obtain ⟨key, e⟩ := p
+    obtain ⟨d1, rep1, rep2, h1, h2⟩ := readEntries_cons h
+    have hs := parseEntry_step hd h1
+    have hd1 := hd.step (hf (key, e) (by simp)) h1
+    have := ih (fun p hp => hf p (List.mem_cons_of_mem _ hp)) hd1 h2 k (hs.want_mono hk)
+    rw [this]
+    cases hg : d.entries.getItem k with
+    | some e0 => rw [hs.get_mono hg]
+    | none =>
+      dsimp only
+      simp only [firstOcc, List.find?_cons]
+      by_cases hkk : keq key k = true
+      · have hl := (keq_iff _ _).1 hkk
+        rw [hkk]
+        cases hs with
+        | skip _ hw =>
+          rcases hw with hw | hw
+          · rw [wantEntry_congr d hl, hk] at hw; cases hw
+          · rw [contains_isSome, getItem_lower_congr _ hl, hg] at hw; cases hw
+        | add ck _ _ _ hget _ _ =>
+          rw [hget k, if_pos hl.symm]
+          rfl
+      · have hkk' : keq key k = false := by simpa using hkk
+        rw [hkk']
+        have hne : ¬ lower k = lower key := fun h' => hkk ((keq_iff _ _).2 h'.symm)
+        cases hs with
+        | skip h' _ => rw [h', hg]
+        | add ck _ _ _ hget _ _ => rw [hget k, if_neg hne, hg]
+
+theorem content_fields {o o' : Option Entry} (h : o.map Entry.content = o'.map Entry.content) :
+    o.map (·.fields) = o'.map (·.fields) := by
+  cases o with
+  | none => cases o' with
+    | none => rfl
+    | some _ => cases h
+  | some e => cases o' with
+    | none => cases h
+    | some e' =>
+      simp only [Option.map_some, Option.some.injEq, Entry.content, Prod.mk.injEq] at h
+      simp [h.2.1]
+
+theorem firstOcc_append_none {a b : List (Str × Entry)} {k : Str} (h : firstOcc a k = none) :
+    firstOcc (a ++ b) k = firstOcc b k := by
+  unfold firstOcc at *
+  rw [List.find?_append, h]
+  rfl
+
+theorem firstOcc_append_some {a b : List (Str × Entry)} {k : Str} (h : (firstOcc a k).isSome = true) :
+    (firstOcc (a ++ b) k).isSome = true := by
+  unfold firstOcc at *
+  rw [List.find?_append]
+  cases hf : List.find? (fun p => keq p.1 k) a with
+  | none => rw [hf] at h; cases h
+  | some _ => rfl
+
+/-- Lemma B: after the (first, hence effective) entry `p` of a wanted key that cross-references
+`y` has been read, `y` is wanted; and the database holds nothing but what it held before and
+keys of the entries read so far. -/
+theorem read_child {file : List (Str × Entry)} (hf : ∀ p ∈ file, EntryWF p.2) {d d' : BibData} {rep : List Report}
+    (hd : RInv d) (h : d.readEntries file = some (d', rep))
+    {g1 g2 : List (Str × Entry)} {p : Str × Entry} (hfile : file = g1 ++ p :: g2)
+    (hfirst : ∀ q ∈ g1, keq q.1 p.1 = false) (hnone : d.entries.getItem p.1 = none)
+    (hw : d.wantEntry p.1 = true) {y : Str} (hy : p.2.fields.getItem Pybtex.xrefName = some y) :
+    ∃ db r2, RInv db ∧ db.readEntries g2 = some (d', r2) ∧ db.wantEntry y = true ∧
+      (∀ k, (db.entries.getItem k).isSome = true →
+        (d.entries.getItem k).isSome = true ∨ (firstOcc (g1 ++ [p]) k).isSome = true) := by
+  subst hfile
+  obtain ⟨da, r1, r2, ha, hrest⟩ := readEntries_append g1 (p :: g2) h
+  obtain ⟨key, e⟩ := p
+  obtain ⟨db, r3, r4, hb, hg2⟩ := readEntries_cons hrest
+  have hf1 : ∀ q ∈ g1, EntryWF q.2 := fun q hq => hf q (List.mem_append_left _ hq)
+  have he : EntryWF e := hf (key, e) (List.mem_append_right _ (by simp))
+  obtain ⟨hda, -, hwa⟩ := read_mono g1 hf1 hd ha
+  have hna : da.entries.getItem key = none := by
+    cases hg : da.entries.getItem key with
+    | none => rfl
+    | some e0 =>
+      rcases read_has g1 hf1 hd ha key (by simp [hg]) with h' | h'
+      · simp only at hnone; rw [hnone] at h'; cases h'
+      · have : firstOcc g1 key = none := by
+          simp only [firstOcc, List.find?_eq_none]
+          intro q hq
+          simpa using hfirst q hq
+        rw [this] at h'; cases h'
+  have hdb := hda.step he hb
+  refine ⟨db, r4, hdb, hg2, ?_, ?_⟩
+  · cases parseEntry_step hda hb with
+    | skip _ hw' =>
+      rcases hw' with hw' | hw'
+      · rw [hwa key hw] at hw'; cases hw'
+      · rw [contains_isSome, hna] at hw'; cases hw'
+    | add ck _ _ _ _ _ hwant =>
+      unfold BibData.wantEntry
+      rw [hwant]
+      unfold wantedAfter
+      cases da.wanted with
+      | none => rfl
+      | some w =>
+        simp only [Option.map_some]
+        rw [show e.fields.getItem Pybtex.xrefName = some y from hy]
+        simp only [contains_add, keq_refl]
+        rfl
+  · intro k hk
+    have hfrom_da : (da.entries.getItem k).isSome = true →
+        (d.entries.getItem k).isSome = true ∨ (firstOcc (g1 ++ [(key, e)]) k).isSome = true := by
+      intro hk'
+      rcases read_has g1 hf1 hd ha k hk' with h' | h'
+      · exact Or.inl h'
+      · exact Or.inr (firstOcc_append_some h')
+    cases parseEntry_step hda hb with
+    | skip hh _ => rw [hh] at hk; exact hfrom_da hk
+    | add ck _ _ _ hget _ _ =>
+      rw [hget k] at hk
+      by_cases hl : lower k = lower key
+      · right
+        have hkk : keq key k = true := (keq_iff _ _).2 hl.symm
+        unfold firstOcc
+        rw [List.find?_append]
+        cases List.find? (fun p => keq p.1 k) g1 with
+        | some _ => rfl
+        | none => simp [List.find?_cons, hkk]
+      · rw [if_neg hl] at hk
+        exact hfrom_da hk
+
+theorem parentOk_split {sfile : List SEntry} {l : List Str} {x : Str} :
+    ∀ {r : List SEntry}, parentOk sfile l x r = true →
+      ∃ h1 px h2, r = h1 ++ px :: h2 ∧ (∀ q ∈ h1, keq q.key x = false) ∧ keq px.key x = true ∧
+        (∀ y, px.crossref = some y →
+          keq y x = true ∨ cited l y = true ∨ (sfile.any fun q' => keq q'.key y) = false ∨
+            (h2.any fun q' => keq q'.key y) = true) := by
+  intro r
+  induction r with
+  | nil => intro h; simp [parentOk] at h
+  | cons q r ih =>
+    intro h
+    simp only [parentOk] at h
+    by_cases hq : keq q.key x = true
+    · rw [if_pos hq] at h
+      refine ⟨[], q, r, rfl, by simp, hq, ?_⟩
+      intro y hy
+      rw [hy] at h
+      simp only [Bool.or_eq_true, Bool.not_eq_true'] at h
+      rcases h with ((h | h) | h) | h
+      · exact Or.inl h
+      · exact Or.inr (Or.inl h)
+      · exact Or.inr (Or.inr (Or.inl h))
+      · exact Or.inr (Or.inr (Or.inr h))
+    · rw [if_neg hq] at h
+      obtain ⟨h1, px, h2, hr, hh1, hpx, hy⟩ := ih h
+      refine ⟨q :: h1, px, h2, by rw [hr]; rfl, ?_, hpx, hy⟩
+      intro q' hq'
+      rcases List.mem_cons.1 hq' with rfl | hq'
+      · simpa using hq
+      · exact hh1 q' hq'
+
+theorem firstLater_split {sfile : List SEntry} {l : List Str} {x : Str} :
+    ∀ {file : List SEntry} {seen : List Str}, firstLater sfile l x seen file = true →
+      ∃ f1 e f2, file = f1 ++ e :: f2 ∧ (∀ q ∈ f1, keq q.key e.key = false) ∧ seen.any (keq e.key) = false ∧
+        cited l e.key = true ∧ (∃ y, e.crossref = some y ∧ keq y x = true) ∧
+        (∀ q ∈ f1 ++ [e], keq q.key x = false) ∧ parentOk sfile l x f2 = true := by
+  intro file
+  induction file with
+  | nil => intro seen h; simp [firstLater] at h
+  | cons e r ih =>
+    intro seen h
+    simp only [firstLater, Bool.and_eq_true, Bool.or_eq_true, Bool.not_eq_true'] at h
+    obtain ⟨hex, h⟩ := h
+    rcases h with ⟨⟨⟨h1, h2⟩, h3⟩, h4⟩ | h
+    · refine ⟨[], e, r, rfl, by simp, h1, h2, ?_, by simpa using hex, h4⟩
+      cases hx : e.crossref with
+      | none => simp [hx] at h3
+      | some y => exact ⟨y, rfl, by simpa [hx] using h3⟩
+    · obtain ⟨f1, e', f2, hr, hf1, hseen, hc, hy, hnox, hok⟩ := ih h
+      rw [List.any_cons, Bool.or_eq_false_iff] at hseen
+      refine ⟨e :: f1, e', f2, by rw [hr]; rfl, ?_, hseen.2, hc, hy, ?_, hok⟩
+      · intro q hq
+        rcases List.mem_cons.1 hq with rfl | hq
+        · rw [keq_comm]; exact hseen.1
+        · exact hf1 q hq
+      · intro q hq
+        rcases List.mem_cons.1 hq with rfl | hq
+        · exact hex
+        · exact hnox q hq
+
 /-! ## Assembly -/
 
 /-- lower-casing the keys in a report -/
@@ -787,17 +993,18 @@ theorem firstOcc_congr (file : List (Str × Entry)) {c c' : Str} (h : lower c = 
 theorem rawToS_crossref {p : Str × Entry} (h : EntryWF p.2) : (rawToS p).crossref = p.2.fields.getItem Pybtex.xrefName :=
   (Entry.crossref_toS h).symm
 
-/-- Reading filtered by the citations, then resolving, gives the same as reading everything,
-then resolving — up to the case of keys — under the ordering proviso. -/
-theorem filtered_eq_unfiltered (file : List (Str × Entry)) (hf : ∀ p ∈ file, EntryWF p.2)
+/-- Specification-level core: reading filtered by the citations, then resolving, gives the same
+keys and the same dangling references of the CITED entries as reading everything, then
+resolving — up to the case of keys — under the ordering proviso. -/
+theorem filtered_core (file : List (Str × Entry)) (hf : ∀ p ∈ file, EntryWF p.2)
     (cits : List Str) (m : Int) (hprov : proviso (file.map rawToS) cits = true) :
     ∃ U repU F repF, BibData.readFile none file = some (U, repU) ∧
-      BibData.readFile (some cits) file = some (F, repF) ∧
-      (F.addExtraCitations cits m).1.map lower = (U.addExtraCitations cits m).1.map lower ∧
-      (F.addExtraCitations cits m).2.map Report.lower = (U.addExtraCitations cits m).2.map Report.lower := by
+      BibData.readFile (some cits) file = some (F, repF) ∧ DbWF U ∧ DbWF F ∧
+      (resolved F.toS cits m).map lower = (resolved U.toS cits m).map lower ∧
+      (dangling F.toS (expanded F.toS cits)).map low2 = (dangling U.toS (expanded U.toS cits)).map low2 := by
   obtain ⟨U, repU, hU, hUwf, -⟩ := readFile_spec none file hf
   obtain ⟨F, repF, hF, hFwf, -⟩ := readFile_spec (some cits) file hf
-  refine ⟨U, repU, F, repF, hU, hF, ?_⟩
+  refine ⟨U, repU, F, repF, hU, hF, hUwf, hFwf, ?_⟩
   -- what the two databases hold
   have hUget : ∀ k, (U.entries.getItem k).map (·.fields) = (firstOcc file k).map (·.2.fields) := by
     intro k
@@ -905,16 +1112,314 @@ theorem filtered_eq_unfiltered (file : List (Str × Entry)) (hf : ∀ p ∈ file
                 (by rw [← rawToS_crossref hqw]; exact hy) hyx
                 (by rw [← any_map_rawToS]; exact hocc2)
               rw [this]
-  -- back to the model
-  have hmodel : ∀ {db : BibData}, DbWF db → db.addExtraCitations cits m =
-      (resolved db.toS cits m, (dangling db.toS (expanded db.toS cits)).map fun p => Report.badCrossref p.1 p.2) := by
-    intro db hdb
-    simp only [BibData.addExtraCitations, crossreferenced_spec hdb, expandWildcard_spec hdb, resolved]
-  rw [hmodel hFwf, hmodel hUwf]
-  refine ⟨hres.1, ?_⟩
-  have hrep : ∀ l : List (Str × Str),
-      (l.map fun p => Report.badCrossref p.1 p.2).map Report.lower = (l.map low2).map fun p => Report.badCrossref p.1 p.2 := by
-    intro l; simp [List.map_map, Report.lower, low2, Function.comp_def]
-  simp only [hrep, hres.2]
+  exact hres
+
+/-- `add_extra_citations` in terms of the specification -/
+theorem addExtra_spec {db : BibData} (hdb : DbWF db) (cits : List Str) (m : Int) :
+    db.addExtraCitations cits m =
+      (resolved db.toS cits m, (dangling db.toS (resolved db.toS cits m)).map fun p => Report.badCrossref p.1 p.2) := by
+  simp only [BibData.addExtraCitations, crossreferenced_spec hdb, expandWildcard_spec hdb, resolved]
+
+theorem report_lower_map (l : List (Str × Str)) :
+    (l.map fun p => Report.badCrossref p.1 p.2).map Report.lower = (l.map low2).map fun p => Report.badCrossref p.1 p.2 := by
+  simp [List.map_map, Report.lower, low2, Function.comp_def]
+
+/-- Reading filtered by the citations, then resolving, gives the same keys as reading everything,
+then resolving, and the same dangling references of the cited entries — up to the case of keys —
+under the ordering proviso. -/
+theorem filtered_eq_unfiltered (file : List (Str × Entry)) (hf : ∀ p ∈ file, EntryWF p.2)
+    (cits : List Str) (m : Int) (hprov : proviso (file.map rawToS) cits = true) :
+    ∃ U repU F repF, BibData.readFile none file = some (U, repU) ∧
+      BibData.readFile (some cits) file = some (F, repF) ∧
+      (F.addExtraCitations cits m).1.map lower = (U.addExtraCitations cits m).1.map lower ∧
+      (dangling F.toS (F.expandWildcard cits)).map low2 = (dangling U.toS (U.expandWildcard cits)).map low2 := by
+  obtain ⟨U, repU, F, repF, hU, hF, hUwf, hFwf, h1, h2⟩ := filtered_core file hf cits m hprov
+  refine ⟨U, repU, F, repF, hU, hF, ?_, ?_⟩
+  · rw [addExtra_spec hFwf, addExtra_spec hUwf]; exact h1
+  · rw [expandWildcard_spec hFwf, expandWildcard_spec hUwf]; exact h2
+
+
+theorem content_isSome {α β γ : Type} {f : α → γ} {g : β → γ} {o : Option α} {o' : Option β}
+    (h : o.map f = o'.map g) : o.isSome = o'.isSome := by
+  cases o <;> cases o' <;> simp_all
+
+theorem keq_false_of_lower {a b c : Str} (h : keq a c = false) (hl : lower b = lower c) : keq a b = false := by
+  rw [keq_congr_right a hl]; exact h
+
+/-- Reading filtered by the citations stores, under every key of the resolved list, THE SAME
+ENTRY as reading everything, and `add_extra_citations` reports the same dangling references
+(those of the appended parents included) — under the strong ordering proviso. -/
+theorem filtered_entries (file : List (Str × Entry)) (hf : ∀ p ∈ file, EntryWF p.2)
+    (cits : List Str) (m : Int) (hprov : provisoStrong (file.map rawToS) cits = true) :
+    ∃ U repU F repF, BibData.readFile none file = some (U, repU) ∧
+      BibData.readFile (some cits) file = some (F, repF) ∧
+      (F.addExtraCitations cits m).1.map lower = (U.addExtraCitations cits m).1.map lower ∧
+      (F.addExtraCitations cits m).2.map Report.lower = (U.addExtraCitations cits m).2.map Report.lower ∧
+      ∀ k ∈ (U.addExtraCitations cits m).1,
+        (F.entries.getItem k).map Entry.content = (U.entries.getItem k).map Entry.content := by
+  unfold provisoStrong at hprov
+  rw [Bool.and_eq_true] at hprov
+  obtain ⟨hweak, hstrong⟩ := hprov
+  obtain ⟨U, repU, F, repF, hU, hF, hUwf, hFwf, hres1, hres2⟩ := filtered_core file hf cits m hweak
+  refine ⟨U, repU, F, repF, hU, hF, ?_⟩
+  have hUc : ∀ k, (U.entries.getItem k).map Entry.content = (firstOcc file k).map (·.2.content) := by
+    intro k
+    have := read_wanted_content file hf (RInv.init none) hU k (init_want_none k)
+    rw [init_getItem] at this
+    exact this
+  have hFc : ∀ k, (BibData.init (some cits)).wantEntry k = true →
+      (F.entries.getItem k).map Entry.content = (firstOcc file k).map (·.2.content) := by
+    intro k hk
+    have := read_wanted_content file hf (RInv.init (some cits)) hF k hk
+    rw [init_getItem] at this
+    exact this
+  have hUget : ∀ k, (U.entries.getItem k).map (·.fields) = (firstOcc file k).map (·.2.fields) := by
+    intro k
+    have := read_wanted file hf (RInv.init none) hU k (init_want_none k)
+    rw [init_getItem] at this
+    exact this
+  have hhasU : ∀ x, hasEntry U.toS x = (firstOcc file x).isSome := by
+    intro x; rw [has_toS hUwf, (bind_of_map_fields (hUget x)).2]
+  have hxref : ∀ k, (F.entries.getItem k).map Entry.content = (U.entries.getItem k).map Entry.content →
+      xrefOf F.toS k = xrefOf U.toS k := by
+    intro k hk
+    rw [xrefOf_toS hFwf, xrefOf_toS hUwf]
+    have := content_fields hk
+    cases hFk : F.entries.getItem k with
+    | none =>
+      rw [hFk] at this
+      cases hUk : U.entries.getItem k with
+      | none => rfl
+      | some _ => rw [hUk] at this; cases this
+    | some a =>
+      rw [hFk] at this
+      cases hUk : U.entries.getItem k with
+      | none => rw [hUk] at this; cases this
+      | some b =>
+        rw [hUk] at this
+        simp only [Option.map_some, Option.some.injEq] at this
+        simp [this]
+  -- the cited part and the appended part of the two resolved lists
+  have hL : (expanded F.toS cits).map lower = (expanded U.toS cits).map lower := by
+    have h1 := hres1
+    unfold resolved at h1
+    rw [List.map_append, List.map_append] at h1
+    by_cases hstar : cited cits Pybtex.star = true
+    · have hall : ∀ k, (BibData.init (some cits)).wantEntry k = true := by
+        intro k; rw [init_want_some, hstar]; simp
+      apply dedupFrom_lower_congr _ _ [] [] _ (fun _ => rfl)
+      apply substStar_lower_congr
+      rw [keys_lower_toS hFwf, keys_lower_toS hUwf,
+        read_keys file hf (RInv.init (some cits)) hF hall,
+        read_keys file hf (RInv.init none) hU init_want_none]
+      rfl
+    · have hnostar : Spec.star ∉ cits := by
+        intro hm
+        apply hstar
+        exact List.any_eq_true.2 ⟨_, hm, keq_refl _⟩
+      unfold expanded
+      rw [substStar_noStar hnostar, substStar_noStar hnostar]
+  have hX : (extra F.toS (expanded F.toS cits) m).map lower = (extra U.toS (expanded U.toS cits) m).map lower := by
+    have h1 := hres1
+    unfold resolved at h1
+    rw [List.map_append, List.map_append] at h1
+    exact (List.append_inj h1 (by rw [hL])).2
+  -- what holds for every key of the unfiltered resolved list
+  have hmain : (∀ k ∈ expanded U.toS cits,
+        (F.entries.getItem k).map Entry.content = (U.entries.getItem k).map Entry.content) ∧
+      (∀ k ∈ extra U.toS (expanded U.toS cits) m,
+        (F.entries.getItem k).map Entry.content = (U.entries.getItem k).map Entry.content ∧ ViewEq F.toS U.toS k) := by
+    by_cases hstar : cited cits Pybtex.star = true
+    · -- a wildcard: every entry is wanted
+      have hall : ∀ k, (BibData.init (some cits)).wantEntry k = true := by
+        intro k; rw [init_want_some, hstar]; simp
+      have hc : ∀ k, (F.entries.getItem k).map Entry.content = (U.entries.getItem k).map Entry.content := by
+        intro k; rw [hFc k (hall k), hUc k]
+      refine ⟨fun k _ => hc k, fun k _ => ⟨hc k, hxref k (hc k), ?_⟩⟩
+      intro x _
+      rw [has_toS hFwf, has_toS hUwf]
+      exact content_isSome (hc x)
+    · have hnostar : Spec.star ∉ cits := by
+        intro hm
+        apply hstar
+        exact List.any_eq_true.2 ⟨_, hm, keq_refl _⟩
+      have hcont : cits.contains Spec.star = false := by
+        rw [Bool.eq_false_iff]; intro h'; exact hnostar (by simpa using h')
+      rw [hcont, Bool.false_or, List.all_eq_true] at hstrong
+      have hexp : expanded U.toS cits = dedupCI cits := by unfold expanded; rw [substStar_noStar hnostar]
+      constructor
+      · intro k hk
+        rw [hexp] at hk
+        have hkc : cited cits k = true := List.any_eq_true.2 ⟨k, (mem_dedupFrom hk).1, keq_refl _⟩
+        have hwk : (BibData.init (some cits)).wantEntry k = true := by rw [init_want_some, hkc]; rfl
+        rw [hFc k hwk, hUc k]
+      · intro k hk
+        obtain ⟨hnc, -, -, c, hc, P, hP, hPk⟩ := mem_extraFrom hk
+        rw [hexp] at hc hnc
+        have hcc : c ∈ cits := (mem_dedupFrom hc).1
+        -- the parent `P` of `c` in the unfiltered database
+        rw [parentOf_eq] at hP
+        cases hxc : xrefOf U.toS c with
+        | none => rw [hxc] at hP; cases hP
+        | some x =>
+          rw [hxc] at hP
+          simp only [Option.bind_some] at hP
+          have hlk : lower k = lower x := by rw [← hPk]; exact find_key hP
+          have hUx : hasEntry U.toS x = true := by unfold hasEntry; rw [hP]; rfl
+          rw [xrefOf_toS hUwf, (bind_of_map_fields (hUget c)).1] at hxc
+          cases hfo : firstOcc file c with
+          | none => rw [hfo] at hxc; cases hxc
+          | some p =>
+            rw [hfo] at hxc
+            simp only [Option.bind_some] at hxc
+            have hpw : EntryWF p.2 := hf p (List.mem_of_find?_eq_some hfo)
+            have hs := hstrong c hcc
+            rw [find_map_rawToS, hfo] at hs
+            simp only [Option.map_some] at hs
+            rw [rawToS_crossref hpw, hxc] at hs
+            simp only [Bool.or_eq_true, Bool.not_eq_true', any_map_rawToS] at hs
+            -- `x` is not cited (it was appended)
+            have hxnc : cited cits x = false := by
+              rw [Bool.eq_false_iff]
+              intro hx
+              obtain ⟨c1, hc1, hk1⟩ := List.any_eq_true.1 hx
+              rcases dedupFrom_complete [] cits hc1 with h' | h'
+              · simp at h'
+              · have : cited (dedupCI cits) k = true := by
+                  obtain ⟨y, hy, hcy⟩ := List.any_eq_true.1 h'
+                  refine List.any_eq_true.2 ⟨y, hy, ?_⟩
+                  rw [keq_iff] at hk1 hcy ⊢
+                  rw [hlk, hk1, hcy]
+                rw [this] at hnc; cases hnc
+            rcases hs with (h' | h') | h'
+            · rw [hxnc] at h'; cases h'
+            · rw [hhasU, h'] at hUx; cases hUx
+            · obtain ⟨f1, e, f2, hsplit, hfirst, -, hce, ⟨y, hy, hyx⟩, hnox, hok⟩ := firstLater_split h'
+              obtain ⟨g1, rest, hg, hg1, hrest⟩ := List.map_eq_append_iff.1 hsplit
+              obtain ⟨q, g2, hq, hqe, hg2⟩ := List.map_eq_cons_iff.1 hrest
+              subst hg1 hqe hg2 hq
+              have hqw : EntryWF q.2 := hf q (by rw [hg]; simp)
+              have hf2 : ∀ r ∈ g2, EntryWF r.2 := fun r hr => hf r (by rw [hg]; simp [hr])
+              obtain ⟨db, r2, hdb, hrd, hwy, hhas⟩ := read_child hf (RInv.init (some cits)) hF hg
+                (fun r hr => hfirst (rawToS r) (List.mem_map.2 ⟨r, hr, rfl⟩))
+                (init_getItem _ _)
+                (by rw [init_want_some]; rw [show cited cits q.1 = true from hce]; rfl)
+                (by rw [← rawToS_crossref hqw]; exact hy)
+              have hwx : db.wantEntry x = true := by
+                rw [← wantEntry_congr db ((keq_iff _ _).1 hyx)]; exact hwy
+              have hpre : firstOcc (g1 ++ [q]) x = none := by
+                simp only [firstOcc, List.find?_eq_none]
+                intro r hr
+                have : rawToS r ∈ g1.map rawToS ++ [rawToS q] := by
+                  rw [← List.map_singleton, ← List.map_append]
+                  exact List.mem_map.2 ⟨r, hr, rfl⟩
+                have h0 : keq r.1 x = false := hnox _ this
+                simp [h0]
+              have hdbx : db.entries.getItem x = none := by
+                cases hgx : db.entries.getItem x with
+                | none => rfl
+                | some _ =>
+                  rcases hhas x (by simp [hgx]) with h'' | h''
+                  · rw [init_getItem] at h''; cases h''
+                  · rw [hpre] at h''; cases h''
+              have hFx := read_wanted_content g2 hf2 hdb hrd x hwx
+              rw [hdbx] at hFx
+              dsimp only at hFx
+              have hfile : firstOcc file x = firstOcc g2 x := by
+                rw [hg, show g1 ++ q :: g2 = (g1 ++ [q]) ++ g2 by simp]
+                exact firstOcc_append_none hpre
+              have hcx : (F.entries.getItem x).map Entry.content = (U.entries.getItem x).map Entry.content := by
+                rw [hFx, hUc x, hfile]
+              have hck : (F.entries.getItem k).map Entry.content = (U.entries.getItem k).map Entry.content := by
+                rw [getItem_lower_congr _ hlk, getItem_lower_congr _ hlk]; exact hcx
+              refine ⟨hck, ViewEq_congr hlk.symm ⟨hxref x hcx, ?_⟩⟩
+              -- the parent's own cross-reference
+              intro y' hy'
+              rw [has_toS hFwf, hhasU]
+              obtain ⟨h1, px, h2, hsp2, hh1, hpx, hcond⟩ := parentOk_split hok
+              obtain ⟨i1, rest2, hi, hi1, hrest2⟩ := List.map_eq_append_iff.1 hsp2
+              obtain ⟨pxm, i2, hpxm, hpxe, hi2⟩ := List.map_eq_cons_iff.1 hrest2
+              subst hi1 hpxe hi2 hpxm
+              have hpxw : EntryWF pxm.2 := hf2 pxm (by rw [hi]; simp)
+              have hfo2 : firstOcc g2 x = some pxm := by
+                rw [hi]
+                unfold firstOcc
+                rw [List.find?_append]
+                have : List.find? (fun p => keq p.1 x) i1 = none := by
+                  rw [List.find?_eq_none]
+                  intro r hr
+                  have h0 : keq r.1 x = false := hh1 (rawToS r) (List.mem_map.2 ⟨r, hr, rfl⟩)
+                  simp [h0]
+                rw [this]
+                have hpx' : keq pxm.1 x = true := hpx
+                simp [List.find?_cons, hpx']
+              -- `y'` is the cross-reference of the stored entry
+              have hy'' : pxm.2.fields.getItem Pybtex.xrefName = some y' := by
+                rw [xrefOf_toS hFwf] at hy'
+                have hb := (bind_of_map_fields (o := F.entries.getItem x) (o' := firstOcc g2 x)
+                  (by have := content_fields (o := F.entries.getItem x) (o' := (firstOcc g2 x).map (·.2))
+                        (by rw [hFx]; simp [Option.map_map, Function.comp_def])
+                      simpa [Option.map_map, Function.comp_def] using this)).1
+                rw [hb, hfo2] at hy'
+                exact hy'
+              have hlpx : lower pxm.1 = lower x := (keq_iff _ _).1 hpx
+              rcases hcond y' (by rw [rawToS_crossref hpxw]; exact hy'') with hc1 | hc1 | hc1 | hc1
+              · -- the parent refers to itself
+                have hl : lower y' = lower x := (keq_iff _ _).1 hc1
+                rw [getItem_lower_congr _ hl, firstOcc_congr file hl, content_isSome hcx, ← has_toS hUwf, hhasU]
+              · have hwy' : (BibData.init (some cits)).wantEntry y' = true := by rw [init_want_some, hc1]; rfl
+                rw [content_isSome (hFc y' hwy')]
+              · rw [any_map_rawToS] at hc1
+                rw [hc1]
+                cases hFy : F.entries.getItem y' with
+                | none => rfl
+                | some _ =>
+                  rcases read_has file hf (RInv.init (some cits)) hF y' (by simp [hFy]) with h'' | h''
+                  · rw [init_getItem] at h''; cases h''
+                  · rw [hc1] at h''; cases h''
+              · have hocc : (firstOcc i2 y').isSome = true := by rw [← any_map_rawToS]; exact hc1
+                have := read_later hf2 hdb hrd hi
+                  (fun r hr => keq_false_of_lower (by
+                      have := hh1 (rawToS r) (List.mem_map.2 ⟨r, hr, rfl⟩); exact this) hlpx)
+                  (by rw [getItem_lower_congr _ hlpx]; exact hdbx)
+                  (by rw [wantEntry_congr db hlpx]; exact hwx)
+                  hy'' (keq_refl y') hocc
+                rw [this]
+                symm
+                rw [hg, hi]
+                have : ∀ a b : List (Str × Entry), (firstOcc b y').isSome = true → (firstOcc (a ++ b) y').isSome = true := by
+                  intro a b hb
+                  unfold firstOcc at *
+                  rw [List.find?_append]
+                  cases List.find? (fun p => keq p.1 y') a with
+                  | some _ => rfl
+                  | none => exact hb
+                apply this g1
+                have h3 : ∀ (a : Str × Entry) (b : List (Str × Entry)), (firstOcc b y').isSome = true → (firstOcc (a :: b) y').isSome = true := by
+                  intro a b hb
+                  exact this [a] b hb
+                apply h3
+                apply this i1
+                apply h3
+                exact hocc
+  obtain ⟨hcited, hextra⟩ := hmain
+  rw [addExtra_spec hFwf, addExtra_spec hUwf]
+  refine ⟨hres1, ?_, ?_⟩
+  · simp only [report_lower_map]
+    congr 1
+    unfold resolved
+    rw [dangling_append, dangling_append, List.map_append, List.map_append, hres2]
+    congr 1
+    rw [dangling_lower F.toS, dangling_lower U.toS, hX]
+    congr 1
+    apply dangling_congr_db
+    intro c hc
+    obtain ⟨c0, hc0, rfl⟩ := List.mem_map.1 hc
+    exact ViewEq_lower (hextra c0 hc0).2
+  · intro k hk
+    unfold resolved at hk
+    rcases List.mem_append.1 hk with hk | hk
+    · exact hcited k hk
+    · exact (hextra k hk).1
 
 end Pybtex
